@@ -774,7 +774,11 @@ impl<'a> Runner<'a> {
                             self.auto_checked += 1;
                             let t = entry.timestamp;
                             let prior = self.model.max_ts.get(&key).copied().unwrap_or(0).max(floor);
-                            if t <= prior {
+                            // a key the application pinned at the top of the range is outside the statement
+                            // ("unless the key was deliberately pinned at the maximum timestamp"): once it has
+                            // expired, its next generation can only be given u64::MAX again
+                            let pinned_at_top = prior == u64::MAX && self.pinned.contains(&key);
+                            if t <= prior && !pinned_at_top {
                                 return Err(self.fail(
                                     step,
                                     &format!("auto-ts:not-increasing:{}", op.name()),
@@ -942,11 +946,14 @@ impl<'a> Runner<'a> {
         }
         let store = storeutil::open(&self.cfg, self.path.as_deref()).map_err(|e| Failure { sig: "reopen:failed".into(), msg: format!("reopen after a clean drop failed: {e:?}"), step })?;
         self.store = Some(store);
+        // recovery feeds the clock with the timestamp of every record it scans, including winners it then
+        // drops as expired: what counts as "recovered from disk" is the model's contents before that purge
+        let recovered_near_max = self.model.keys.values().any(|g| g.ts >= u64::MAX - (1 << 20) && g.ts != u64::MAX);
         self.model.reopen();
         self.failed_explicit.clear();
         self.pinned = self.model.keys.iter().filter(|(k, g)| g.ts >= u64::MAX - 1 && self.pinned.contains(*k)).map(|(k, _)| k.clone()).collect();
         self.max_accepted = self.model.keys.values().map(|g| g.ts).max().unwrap_or(0);
-        self.near_max_accepted = self.model.keys.values().any(|g| g.ts >= u64::MAX - (1 << 20) && g.ts != u64::MAX);
+        self.near_max_accepted = recovered_near_max;
         self.compare_state(step, &op, None)?;
         self.full_sweep(step, &op)?;
         if self.spec.layout_check {
@@ -1053,7 +1060,7 @@ pub fn run_program(spec: &ProgSpec, dir: &str, report: &mut Report) -> Option<Fa
         report.sample(json!({"config": spec.cfg.label(), "seed": spec.seed, "index": spec.index, "first_calls": runner.log.iter().take(12).collect::<Vec<_>>()}));
     }
     if let Some(f) = &failure {
-        let tail: Vec<&String> = runner.log.iter().rev().take(25).rev().collect();
+        let tail: Vec<&String> = runner.log.iter().rev().take(if std::env::var("FVH_FULL_LOG").is_ok() { usize::MAX } else { 25 }).rev().collect();
         report.violation(
             f.sig.clone(),
             f.msg.clone(),
